@@ -59,7 +59,7 @@ def value_decl(p, pos, idx):
     raise SystemExit(f"unknown class {cls}")
 
 
-def gen_decl(i, d):
+def gen_decl(i, d, group):
     words = d["words"]
     fname = "_".join(words)
     lt = d["lt"]
@@ -104,10 +104,8 @@ def gen_decl(i, d):
     out.append(f"pub mod m{i} {{")
     out.append("    #![allow(unused_variables, unused_mut, clippy::all)]")
     out.append("    use crate::common::*;")
-    out.append('    #[zlink_core::proxy(interface = "' + d["iface"] + '", crate = "zlink_core")]')
-    out.append("    pub trait P {")
-    out.append(attr_line + f"        async fn {fname}{gen}(&mut self{sig_params}) -> {ret};")
-    out.append("    }")
+    out.append(f"    use super::t{group}::*;")
+    sig = attr_line + f"        async fn {fname}{gen}(&mut self{sig_params}) -> {ret};"
     out.append(f"    pub const DECL: &str = {json.dumps(decl_json)};")
     out.append(f'    pub const ID: &str = "m{i}";')
     out.append("    pub fn drive(r: &mut Rng, st: &mut Stats) {")
@@ -198,7 +196,7 @@ def gen_decl(i, d):
         out.append("        }")
     out.append("    }")
     out.append("}")
-    return "\n".join(out)
+    return sig, "\n".join(out)
 
 
 def main():
@@ -206,8 +204,30 @@ def main():
     decls = [json.loads(l) for l in open(src) if l.strip()]
     parts = ["// @generated by gen/proxy.py from the declarations TLC enumerated (specs/MCProxyGen.tla). Do not edit.",
              f"pub const N_DECLS: usize = {len(decls)};"]
+    # several methods share one trait (as real proxies do): consecutive declarations are grouped, up to
+    # three per trait, as long as their Rust names differ
+    groups = []
     for i, d in enumerate(decls):
-        parts.append(gen_decl(i, d))
+        name = "_".join(d["words"])
+        if groups and len(groups[-1]) < 3 and name not in [n for _, n in groups[-1]]:
+            groups[-1].append((i, name))
+        else:
+            groups.append([(i, name)])
+    for g, members in enumerate(groups):
+        sigs, mods = [], []
+        for i, _ in members:
+            sig, mod = gen_decl(i, decls[i], g)
+            sigs.append(sig)
+            mods.append(mod)
+        parts.append(f"pub mod t{g} {{")
+        parts.append("    #![allow(unused_variables, unused_mut, clippy::all)]")
+        parts.append("    use crate::common::*;")
+        parts.append('    #[zlink_core::proxy(interface = "' + decls[members[0][0]]["iface"] + '", crate = "zlink_core")]')
+        parts.append("    pub trait P {")
+        parts.extend(sigs)
+        parts.append("    }")
+        parts.append("}")
+        parts.extend(mods)
     parts.append("pub fn drive_all(r: &mut crate::common::Rng, st: &mut crate::common::Stats) {")
     for i in range(len(decls)):
         parts.append(f"    m{i}::drive(r, st);")
